@@ -247,9 +247,10 @@ def gen_item(run_seed):
             base = 'fragment long{ %s }' % '\n'.join(atoms)
             bdesc = 'long-chain-%d' % n
         else:
-            nd = rng.choice([50, 1000, 4400, 9000])
-            base = ('rule big{ reactant r1{ C? labeled c1 } modify number of '
-                    'radical (c1, %s) }' % ('7' * nd))
+            nd = rng.choice([50, 1000, 4300, 4400, 9000])
+            steps = ' '.join('modify number of radical (c1, %s)' % ('7' * nd)
+                             for _ in range(rng.choice([1, 2, 3])))
+            base = 'rule big{ reactant r1{ C? labeled c1 } %s }' % steps
             bdesc = 'huge-number-%d' % nd
         return {'id': 'm%d' % run_seed, 'text': base, 'base': bdesc,
                 'faults': [{'kind': 'size:' + bdesc.rsplit('-', 1)[0]}]}
